@@ -2,7 +2,7 @@
 import os, json, subprocess
 from lib import engine, native, demos
 from lib.core import tier, VERIF, Undecided
-from units import k07_reducers, k04_update, k23_slices, k08_bodies
+from units import k07_reducers, k04_update, k23_slices, k08_bodies, k11_sorted
 from . import common
 
 LEVEL = "other"
@@ -50,6 +50,7 @@ def run(rep):
     specs = [s for s in k07_reducers.units(tier()) if "mpi" in s["unit"] or "identity" in s["unit"]]
     specs += [s for s in k04_update.units(tier(), which=("K4", "K5")) if "mpi" in s.get("unit", "")]
     specs += [u for u in k08_bodies.units(tier()) if "mpi" in u.get("unit", "")]
+    specs += [u for u in k11_sorted.units(tier()) if "mpi" in u.get("unit", "")]
     engine.run_units(rep, specs)
     try:
         gen_dir, gen_hash, gen_log, gen_stmts = k23_slices.generate()
